@@ -4,6 +4,7 @@ import (
 	"fmt"
 	"go/token"
 	"go/types"
+	"sort"
 	"strings"
 
 	"golang.org/x/tools/go/ssa"
@@ -57,6 +58,7 @@ func R24(pkgs ...string) func(p *core.Prog) *core.Result {
 			frameStale(p, r, in)
 			effectBeforeCollect(p, r, in)
 			resumeMatch(p, r, in)
+			indexTranslation(p, r, in)
 		}
 		if in["enc"] {
 			if in["json"] {
@@ -1109,4 +1111,176 @@ func stickyFail(p *core.Prog, r *core.Result, in map[string]bool) {
 		}
 	}
 	r.Floor("push_mode_entry_points", n, 3)
+}
+
+// ---- (h) INDEX-TRANSLATION (json) ----
+//
+// A scan that ranges over a window of the chunk (buf = b[o:]) and turns its
+// range index i into a position in the chunk by adding a correction d (stop =
+// i + d) must translate the same way on every path: d - o is one constant.
+// When the window is moved on one path without the correction following (or
+// the other way round) the token is cut one byte short or long for exactly
+// the inputs that take that path - which depends on where the chunk was cut.
+
+type itState struct {
+	off map[int]int64 // slice value id -> offset relative to the chunk
+	cv  map[int]int64 // int value id -> constant value
+}
+
+func (s itState) key() string {
+	var parts []string
+	for _, m := range []map[int]int64{s.off, s.cv} {
+		var ks []int
+		for k := range m {
+			ks = append(ks, k)
+		}
+		for i := 1; i < len(ks); i++ {
+			for j := i; j > 0 && ks[j] < ks[j-1]; j-- {
+				ks[j], ks[j-1] = ks[j-1], ks[j]
+			}
+		}
+		for _, k := range ks {
+			parts = append(parts, fmt.Sprintf("%d:%d", k, m[k]))
+		}
+		parts = append(parts, "|")
+	}
+	return strings.Join(parts, ",")
+}
+func cloneI64(m map[int]int64) map[int]int64 {
+	n := make(map[int]int64, len(m)+1)
+	for k, v := range m {
+		n[k] = v
+	}
+	return n
+}
+
+type itClient struct {
+	num *valueNumbering
+	rec map[*ssa.BinOp]map[int64]bool
+}
+
+func (k *itClient) Key(s itState) string { return s.key() }
+func (k *itClient) constOf(s itState, v ssa.Value) (int64, bool) {
+	if c, ok := constIntVal(v); ok {
+		return c, true
+	}
+	c, ok := s.cv[k.num.id(v)]
+	return c, ok
+}
+func (k *itClient) Phis(s itState, blk *ssa.BasicBlock, pred int) itState {
+	off, cv := cloneI64(s.off), cloneI64(s.cv)
+	for _, in := range blk.Instrs {
+		phi, ok := in.(*ssa.Phi)
+		if !ok {
+			break
+		}
+		if pred < 0 || pred >= len(phi.Edges) {
+			continue
+		}
+		e := phi.Edges[pred]
+		id := k.num.id(phi)
+		delete(off, id)
+		delete(cv, id)
+		if isByteSlice(phi.Type()) {
+			if o, ok := s.off[k.num.id(e)]; ok {
+				off[id] = o
+			}
+		} else if c, ok := k.constOf(s, e); ok {
+			cv[id] = c
+		}
+	}
+	return itState{off, cv}
+}
+func (k *itClient) Instr(s itState, in ssa.Instruction) (itState, bool, []itState) {
+	switch x := in.(type) {
+	case *ssa.Slice:
+		if o, ok := s.off[k.num.id(x.X)]; ok {
+			low := int64(0)
+			known := true
+			if x.Low != nil {
+				low, known = k.constOf(s, x.Low)
+			}
+			if known {
+				off := cloneI64(s.off)
+				off[k.num.id(x)] = o + low
+				s.off = off
+			}
+		}
+	case *ssa.BinOp:
+		if x.Op != token.ADD {
+			break
+		}
+		for _, pr := range [][2]ssa.Value{{x.X, x.Y}, {x.Y, x.X}} {
+			d, ok := k.constOf(s, pr[1])
+			if !ok {
+				continue
+			}
+			if _, isC := pr[0].(*ssa.Const); isC {
+				continue
+			}
+			refs := pr[0].Referrers()
+			if refs == nil {
+				continue
+			}
+			for _, rf := range *refs {
+				ia, ok := rf.(*ssa.IndexAddr)
+				if !ok || ia.Index != pr[0] {
+					continue
+				}
+				if o, ok := s.off[k.num.id(ia.X)]; ok {
+					if k.rec[x] == nil {
+						k.rec[x] = map[int64]bool{}
+					}
+					k.rec[x][d-o] = true
+				}
+			}
+		}
+	}
+	return s, true, nil
+}
+func (k *itClient) Branch(s itState, _ ssa.Value, _ bool) (itState, bool) { return s, true }
+func (k *itClient) Return(itState, *ssa.Return)                           {}
+
+func indexTranslation(p *core.Prog, r *core.Result, in map[string]bool) {
+	n := 0
+	for _, pk := range []string{"json", "cborl", "ubjson"} {
+		if !in[pk] {
+			continue
+		}
+		fam, err := buildFamily(p, pk)
+		if err != nil {
+			continue
+		}
+		for f, sf := range fam.steps {
+			k := &itClient{num: newNumbering(), rec: map[*ssa.BinOp]map[int64]bool{}}
+			init := itState{off: map[int]int64{k.num.id(sf.chunk): 0}, cv: map[int]int64{}}
+			_, capped := WalkPaths[itState](k, f.Blocks[0], 0, init, 200000, nil)
+			if capped {
+				continue // not a scan of this shape
+			}
+			var ops []*ssa.BinOp
+			for bo := range k.rec {
+				ops = append(ops, bo)
+			}
+			sort.Slice(ops, func(i, j int) bool { return ops[i].Pos() < ops[j].Pos() })
+			for i, bo := range ops {
+				n++
+				fkey := core.FuncKey(f)
+				pos := p.Pos(bo.Pos())
+				if len(k.rec[bo]) == 1 {
+					r.Ok(".INDEX-TRANSLATION", pos, fkey+": window index is translated to a chunk position the same way on every path")
+				} else {
+					var vs []string
+					for v := range k.rec[bo] {
+						vs = append(vs, fmt.Sprint(v))
+					}
+					sort.Strings(vs)
+					r.Fail(".INDEX-TRANSLATION", fmt.Sprintf("%s|translate#%d", fkey, i+1), pos, fmt.Sprintf("%s turns an index into a window of the chunk into a chunk position by a correction that differs from the window's offset by %s depending on the path: on one of them the token boundary is off by one (the window was moved without the correction following)", fkey, strings.Join(vs, " or ")), "")
+				}
+			}
+		}
+	}
+	if in["json"] {
+		r.Floor("window_index_translations", n, 1)
+	}
 }
